@@ -140,13 +140,6 @@ package flags
 // convert.go (assumed for now)
 // ===================================================================
 
-// (a custom Unmarshaler is trusted not to answer with a typed-nil *Error nor
-// with the parser's own "unknown flag" error)
-//@ assumed func convert(val string, retval reflect.Value, options multiTag) (err error)
-//@   traced
-//@   ensures is(err, *Error) ==> as(err, *Error) != nil
-//@   ensures !isTyped(err, ErrUnknownFlag)
-
 // ===================================================================
 // parser.go: parseState
 // ===================================================================
@@ -1036,3 +1029,100 @@ package flags
 //@   at call Option.setDefault #1: opt != nil && (pval == nil) == (!opt.canArgument() && len(inival.Value) == 0) && (pval != nil && opt.value.Type().Kind() != reflect.Map ==> *pval == inival.Value)
 //@   ensures[C14] err != nil ==> isTyped(err, ErrUnknownGroup) || (is(err, *IniError) && as(err, *IniError) != nil && as(err, *IniError).File == ini.File)
 //@   ensures[C14] isTyped(err, ErrUnknownGroup) ==> p.Options&IgnoreUnknown == 0
+
+
+// ===================================================================
+// convert.go: text -> value
+// ===================================================================
+
+// strconv / time (trusted): deterministic parsers. (That they accept exactly the
+// texts denoting a value of the requested width and base is strconv's contract.)
+//@ assumed func strconv.ParseInt(s string, base int, bitSize int) (i int64, err error)
+//@   pure
+//@   ensures !is(err, *Error) && !is(err, *IniError)
+//@ assumed func strconv.ParseUint(s string, base int, bitSize int) (i uint64, err error)
+//@   pure
+//@   ensures !is(err, *Error) && !is(err, *IniError)
+//@ assumed func strconv.ParseFloat(s string, bitSize int) (f float64, err error)
+//@   pure
+//@   ensures !is(err, *Error) && !is(err, *IniError)
+//@ assumed func strconv.ParseBool(str string) (b bool, err error)
+//@   pure
+//@   ensures !is(err, *Error) && !is(err, *IniError)
+//@ assumed func time.ParseDuration(s string) (d time.Duration, err error)
+//@   pure
+//@   ensures !is(err, *Error) && !is(err, *IniError)
+
+// reflect (trusted ghost model): the writes into the user's field are
+// recorded as ghost traces of the Set* calls.
+//@ assumed func reflect.TypeOf(i interface{}) (t reflect.Type)
+//@   pure
+//@ assumed func reflect.Type.Bits(t reflect.Type) (n int)
+//@   pure
+//@ assumed func reflect.Type.Key(t reflect.Type) (k reflect.Type)
+//@   pure
+//@ assumed func reflect.New(t reflect.Type) (v reflect.Value)
+//@ assumed func reflect.Indirect(v reflect.Value) (r reflect.Value)
+//@   pure
+//@ assumed func reflect.Append(s reflect.Value, x reflect.Value) (r reflect.Value)
+//@   pure
+//@ assumed func reflect.MakeMap(t reflect.Type) (v reflect.Value)
+//@ assumed func reflect.Value.Elem(v reflect.Value) (r reflect.Value)
+//@   pure
+//@ assumed func reflect.Value.SetString(v reflect.Value, x string)
+//@   traced
+//@ assumed func reflect.Value.SetBool(v reflect.Value, x bool)
+//@   traced
+//@ assumed func reflect.Value.SetInt(v reflect.Value, x int64)
+//@   traced
+//@ assumed func reflect.Value.SetUint(v reflect.Value, x uint64)
+//@   traced
+//@ assumed func reflect.Value.SetFloat(v reflect.Value, x float64)
+//@   traced
+//@ assumed func reflect.Value.Set(v reflect.Value, x reflect.Value)
+//@   traced
+//@ assumed func reflect.Value.SetMapIndex(v reflect.Value, key reflect.Value, elem reflect.Value)
+//@   traced
+
+// (a custom Unmarshaler is trusted not to answer with a typed-nil *Error nor
+// with the parser's own "unknown flag" error)
+//@ assumed func convertUnmarshal(val string, retval reflect.Value) (ok bool, err error)
+//@   pure
+//@   ensures is(err, *Error) ==> as(err, *Error) != nil
+//@   ensures !isTyped(err, ErrUnknownFlag)
+
+//@ func getBase(options multiTag, base int) (r int, err error)
+//@   props C11 C12 C04
+//@   ensures[C11] options.Get("base") == "" ==> r == base && err == nil
+//@   ensures[C11] options.Get("base") != "" ==> r == int(fst(strconv.ParseInt(options.Get("base"), 10, 32))) && err == snd(strconv.ParseInt(options.Get("base"), 10, 32))
+//@   ensures !is(err, *Error)
+
+//@ pure func durationT() reflect.Type = reflect.TypeOf((*time.Duration)(nil)).Elem()
+//@ pure func isIntKind(k reflect.Kind) bool = k == reflect.Int || k == reflect.Int8 || k == reflect.Int16 || k == reflect.Int32 || k == reflect.Int64
+//@ pure func isUintKind(k reflect.Kind) bool = k == reflect.Uint || k == reflect.Uint8 || k == reflect.Uint16 || k == reflect.Uint32 || k == reflect.Uint64
+//@ pure func isFloatKind(k reflect.Kind) bool = k == reflect.Float32 || k == reflect.Float64
+// nothing was stored into any field
+//@ pure func storesUnchanged() bool = ncalls(reflect.Value.SetString) == old(ncalls(reflect.Value.SetString)) && ncalls(reflect.Value.SetBool) == old(ncalls(reflect.Value.SetBool)) && ncalls(reflect.Value.SetInt) == old(ncalls(reflect.Value.SetInt)) && ncalls(reflect.Value.SetUint) == old(ncalls(reflect.Value.SetUint)) && ncalls(reflect.Value.SetFloat) == old(ncalls(reflect.Value.SetFloat)) && ncalls(reflect.Value.Set) == old(ncalls(reflect.Value.Set)) && ncalls(reflect.Value.SetMapIndex) == old(ncalls(reflect.Value.SetMapIndex))
+
+// convert stores into retval exactly the value that strconv parses from val
+// with the WIDTH OF THE FIELD'S TYPE and the BASE OF THE TAG, or stores nothing
+// and returns the parser's error.
+//@ func convert(val string, retval reflect.Value, options multiTag) (err error)
+//@   props C11 C04
+//@   traced
+//@   let tp := retval.Type()
+//@   let k := retval.Type().Kind()
+//@   let um := fst(convertUnmarshal(val, retval))
+//@   let scalar := !um && tp != durationT()
+//@   ensures[C11] um ==> err == snd(convertUnmarshal(val, retval)) && storesUnchanged()
+//@   ensures[C11] !um && tp == durationT() ==> (err == snd(time.ParseDuration(val))) && (err == nil ==> ncalls(reflect.Value.SetInt) == old(ncalls(reflect.Value.SetInt)) + 1 && callarg(reflect.Value.SetInt, old(ncalls(reflect.Value.SetInt)), 0) == retval && callarg(reflect.Value.SetInt, old(ncalls(reflect.Value.SetInt)), 1) == int64(fst(time.ParseDuration(val)))) && (err != nil ==> storesUnchanged())
+//@   ensures[C11] scalar && k == reflect.String ==> err == nil && ncalls(reflect.Value.SetString) == old(ncalls(reflect.Value.SetString)) + 1 && callarg(reflect.Value.SetString, old(ncalls(reflect.Value.SetString)), 0) == retval && callarg(reflect.Value.SetString, old(ncalls(reflect.Value.SetString)), 1) == val
+//@   ensures[C11] scalar && k == reflect.Bool && val == "" ==> err == nil && ncalls(reflect.Value.SetBool) == old(ncalls(reflect.Value.SetBool)) + 1 && callarg(reflect.Value.SetBool, old(ncalls(reflect.Value.SetBool)), 1)
+//@   ensures[C11] scalar && k == reflect.Bool && val != "" ==> err == snd(strconv.ParseBool(val)) && (err == nil ==> ncalls(reflect.Value.SetBool) == old(ncalls(reflect.Value.SetBool)) + 1 && callarg(reflect.Value.SetBool, old(ncalls(reflect.Value.SetBool)), 0) == retval && callarg(reflect.Value.SetBool, old(ncalls(reflect.Value.SetBool)), 1) == fst(strconv.ParseBool(val))) && (err != nil ==> storesUnchanged())
+//@   ensures[C11] scalar && isIntKind(k) && snd(getBase(options, 10)) != nil ==> err == snd(getBase(options, 10)) && storesUnchanged()
+//@   ensures[C11] scalar && isIntKind(k) && snd(getBase(options, 10)) == nil ==> err == snd(strconv.ParseInt(val, fst(getBase(options, 10)), tp.Bits())) && (err == nil ==> ncalls(reflect.Value.SetInt) == old(ncalls(reflect.Value.SetInt)) + 1 && callarg(reflect.Value.SetInt, old(ncalls(reflect.Value.SetInt)), 0) == retval && callarg(reflect.Value.SetInt, old(ncalls(reflect.Value.SetInt)), 1) == fst(strconv.ParseInt(val, fst(getBase(options, 10)), tp.Bits()))) && (err != nil ==> storesUnchanged())
+//@   ensures[C11] scalar && isUintKind(k) && snd(getBase(options, 10)) != nil ==> err == snd(getBase(options, 10)) && storesUnchanged()
+//@   ensures[C11] scalar && isUintKind(k) && snd(getBase(options, 10)) == nil ==> err == snd(strconv.ParseUint(val, fst(getBase(options, 10)), tp.Bits())) && (err == nil ==> ncalls(reflect.Value.SetUint) == old(ncalls(reflect.Value.SetUint)) + 1 && callarg(reflect.Value.SetUint, old(ncalls(reflect.Value.SetUint)), 0) == retval && callarg(reflect.Value.SetUint, old(ncalls(reflect.Value.SetUint)), 1) == fst(strconv.ParseUint(val, fst(getBase(options, 10)), tp.Bits()))) && (err != nil ==> storesUnchanged())
+//@   ensures[C11] scalar && isFloatKind(k) ==> err == snd(strconv.ParseFloat(val, tp.Bits())) && (err == nil ==> ncalls(reflect.Value.SetFloat) == old(ncalls(reflect.Value.SetFloat)) + 1 && callarg(reflect.Value.SetFloat, old(ncalls(reflect.Value.SetFloat)), 0) == retval && callarg(reflect.Value.SetFloat, old(ncalls(reflect.Value.SetFloat)), 1) == fst(strconv.ParseFloat(val, tp.Bits()))) && (err != nil ==> storesUnchanged())
+//@   ensures is(err, *Error) ==> as(err, *Error) != nil
+//@   ensures !isTyped(err, ErrUnknownFlag)
